@@ -71,6 +71,22 @@ def explore(ctx, art):
         if rc or len(judge) != len(lines):
             ctx.broken.append(("model", "C09 driver run failed", ""))
             judge = None
+    # real sockets, real time: a case whose set-up did not come together (a peer not yet in its handler after a second
+    # on a loaded machine) is repeated alone, twice at most; only a set-up that fails every time is reported
+    for i, (l, o) in enumerate(zip(lines, impl)):
+        f = l.split()
+        realtime = f[2] in ("srvstop", "discover") or f[1] == "dtls" or f[3] == "stalled"
+        if realtime and o in ("conn-error", "setup-failed"):
+            for attempt in range(2):
+                again = common.run_test_harness(ctx, art["test"], "TestC09", [l], timeout=300, tag="retry")
+                if again and again[0] not in ("conn-error", "setup-failed"):
+                    ctx.notes.append("rig: `%s` needed %d repetition(s) to set up" % (l, attempt + 1))
+                    impl[i] = again[0]
+                    if judge is not None:
+                        rcj, jj, _ = common.pipe_lines([art["driver"], "judge"], [l + " | " + again[0]])
+                        if not rcj and len(jj) == 1:
+                            judge[i] = jj[0]
+                    break
     seen = set()
     for i, (l, o) in enumerate(zip(lines, impl)):
         ctx.cov["evaluations"] += 1
